@@ -33,6 +33,7 @@ func runC17(c *Ctx) {
 	c17Generate(c, m)
 	c17Pad(c, m)
 	c17Determinism(c, m)
+	c17ReflectRange(c, c.Root())
 }
 
 func c17Parsers(c *Ctx, m *Module) {
@@ -680,4 +681,47 @@ func c17MinVersionFold(c *Ctx, m *Module, gen *ssa.Function) {
 // concatenation.
 func isPrereleaseKey(d string) bool {
 	return strings.HasPrefix(d, `fmt.Sprintf("%s-%s"`) || (strings.HasPrefix(d, "((") && strings.Contains(d, ` + "-") + `))
+}
+
+// c17ReflectRange: the reflect calls of the parser that panic on a range error. Parse must
+// never panic; reflect.Value.Index/Slice/SetLen/SetCap panic when the index or length is out of
+// range, and nothing here can bound a reflect length. Each such call is therefore tabled with
+// the reason it is in range; a new one (growing a slice with SetLen, say, which panics beyond
+// the capacity) is reported.
+var c17ReflectTable = map[string]string{
+	"parseSlice$1|(reflect.Value).Index": "index Len()-1 of the value that reflect.Append has just made one longer (set in the statement before)",
+}
+
+func c17ReflectRange(c *Ctx, m *Module) {
+	r := c.R
+	n := 0
+	for _, fn := range m.PkgFuncs("internal/chartconfig") {
+		for _, cs := range callsIn(fn) {
+			cn := calleeName(cs.Common())
+			switch cn {
+			case "(reflect.Value).Index", "(reflect.Value).Slice", "(reflect.Value).Slice3", "(reflect.Value).SetLen", "(reflect.Value).SetCap", "(reflect.Value).Field", "(reflect.Value).MapIndex":
+			default:
+				continue
+			}
+			n++
+			key := short(fn.Name()) + "|" + cn
+			reason, tabled := c17ReflectTable[key]
+			ok := tabled
+			if ok && cn == "(reflect.Value).Index" {
+				// Index(v.Len() - 1) right after v.Set(reflect.Append(v, …))
+				d := describeArg(cs, 1)
+				ok = strings.Contains(d, ".Len(") && strings.HasSuffix(d, " - 1)")
+				okAppend := false
+				for _, c2 := range callsIn(fn, "reflect.Append") {
+					if precedes(c2, cs) {
+						okAppend = true
+					}
+				}
+				ok = ok && okAppend
+			}
+			r.Check("C17.parse-total", fmt.Sprintf("%s/%s stays in range", short(fn.Name()), cn), m.Pos(cs.Pos()), ok,
+				"a reflect call that panics when out of range needs a tabled reason: "+reason+" (got argument "+shortDesc(describeArg(cs, len(cs.Common().Args)-1))+")")
+		}
+	}
+	r.Analysed["reflect_range_calls"] = n
 }
